@@ -5,7 +5,10 @@ mod c03;
 mod c04;
 mod c07;
 mod c09;
+mod c11;
 mod c12;
+mod c14;
+mod c15;
 mod gen;
 mod hx;
 mod oracle;
@@ -39,7 +42,10 @@ fn main() {
         "C07" => c07::run("C07"),
         "C08" => c07::run("C08"),
         "C09" => c09::run(),
+        "C11" => c11::run(),
         "C12" => c12::run(),
+        "C14" => c14::run(),
+        "C15" => c15::run(),
         p => {
             eprintln!("explore: no E1 check for {}", p);
             std::process::exit(2);
